@@ -239,9 +239,11 @@ def run(ctx):
             check_pair(ctx, fdef, renamed_copy(rng, fdef, flip=rng.choice([None] + sorted(fdef["states"], key=enc.sort_key))),
                        "finite_language")
         if i % 5 == 0:
-            others = [gen.rand_dfa_def(rng, alphabet=sigma)
-                      if rng.random() < 0.7 else renamed_copy(rng, adef) for _ in range(5)]
-            check_session(ctx, adef, others, "session")
+            names, _ = gen.pick_names(rng, 6)
+            refdef = gen.rand_dfa_def(rng, alphabet=sigma, names=list(names))
+            others = [gen.rand_dfa_def(rng, alphabet=sigma, names=list(names))
+                      if rng.random() < 0.7 else renamed_copy(rng, refdef) for _ in range(5)]
+            check_session(ctx, refdef, others, "session")
         if i % 3 == 0:
             for _ in range(3):
                 x, y, tag = gen.lasso_pair(rng, rng.choice(["a", "a", "ab"]))
@@ -249,12 +251,17 @@ def run(ctx):
                 if dx and dy:
                     check_pair(ctx, dx, dy, tag)
     # operands over different alphabets are refused
-    a = mk_dfa(gen.rand_dfa_def(rng, alphabet="ab"))
-    b = mk_dfa(gen.rand_dfa_def(rng, alphabet="a"))
-    for name, fn in (("issubset", lambda: a.issubset(b)), ("isdisjoint", lambda: a.isdisjoint(b)), ("le", lambda: a <= b)):
-        g = outcome(fn)
-        if g[:2] != ("err", enc.MISMATCH):
-            ctx.violation(f"{name} on different alphabets: {g}, expected SymbolMismatchError", {"kind": "mismatch", "op": name})
+    for sa, sb in [("ab", "a"), ("a", "ab"), ("ab", "bc"), ("ab", "cd"), ("abc", "ab"), ("ab", "abc")] * ctx.n(2, 10):
+        da, db = gen.rand_dfa_def(rng, alphabet=sa), gen.rand_dfa_def(rng, alphabet=sb)
+        a, b = mk_dfa(da), mk_dfa(db)
+        for name, fn in (("issubset", lambda: a.issubset(b)), ("issuperset", lambda: a.issuperset(b)),
+                         ("isdisjoint", lambda: a.isdisjoint(b)), ("le", lambda: a <= b), ("lt", lambda: a < b),
+                         ("ge", lambda: a >= b), ("gt", lambda: a > b)):
+            g = outcome(fn)
+            ctx.tally("alphabet_mismatch_refusal")
+            if g[:2] != ("err", enc.MISMATCH):
+                ctx.violation(f"{name} of a DFA over {sorted(sa)} with one over {sorted(sb)}: {g}, expected SymbolMismatchError",
+                              {"kind": "mismatch", "op": name, "A": repr(da), "B": repr(db)})
     if ctx.tier == "thorough":
         # exhaustive: all pairs of partial DFAs with <= 2 states over {a} and {a,b} restricted: 1-2 states over {a}
         defs = []
